@@ -139,6 +139,7 @@ type State struct {
 	events  []string
 	collect *[]candCheck // houdini: collected candidate checks at back edges
 	steps   int
+	gvars     map[string]Val // mutable ghost variables of the unit
 	onceDepth int
 	hashEmpty map[string]bool // hashers known to be in their initial (empty) state on this path
 	stop    *stopCtx
@@ -285,7 +286,10 @@ func (st *State) setHeap(name, sort, term string) {
 func (st *State) havocHeap(name string) {
 	sort, ok := st.hsort[name]
 	if !ok || sort == "" {
-		return
+		sort, ok = heapSortOf[name]
+		if !ok || sort == "" {
+			return
+		}
 	}
 	st.heap(name, sort)
 	sym := fresh("H_" + name)
@@ -304,12 +308,14 @@ func (st *State) havocHeap(name string) {
 var heapValType = map[string]types.Type{}
 var heapKeySort = map[string]string{}
 var heapKeyType = map[string]types.Type{}
+var heapSortOf = map[string]string{} // every heap name ever formed -> its sort
 
 func fieldHeapName(stt types.Type, st *types.Struct, i int) (string, string) {
 	sname := reg.structSort(st, typeHint(stt))
 	n := fmt.Sprintf("F!%s!%s", sname, st.Field(i).Name())
 	heapValType[n] = st.Field(i).Type()
-	return n, fmt.Sprintf("(Array Int %s)", sortOf(st.Field(i).Type()))
+	heapSortOf[n] = fmt.Sprintf("(Array Int %s)", sortOf(st.Field(i).Type()))
+	return n, heapSortOf[n]
 }
 
 // heapTyping: every value stored in a heap satisfies the (quantifier-free) invariant of its Go type.
@@ -416,19 +422,23 @@ func elemHeapName(elem types.Type) (string, string) {
 	s := sortOf(elem)
 	n := "E!" + tkey(elem)
 	heapValType[n] = elem
-	return n, fmt.Sprintf("(Array Int (Array Int %s))", s)
+	heapSortOf[n] = fmt.Sprintf("(Array Int (Array Int %s))", s)
+	return n, heapSortOf[n]
 }
 
 func cellHeapName(t types.Type) (string, string) {
 	s := sortOf(t)
 	n := "C!" + tkey(t)
 	heapValType[n] = t
-	return n, fmt.Sprintf("(Array Int %s)", s)
+	heapSortOf[n] = fmt.Sprintf("(Array Int %s)", s)
+	return n, heapSortOf[n]
 }
 
 func mapHeapNames(m *types.Map) (dom, val, dsort, vsort, ksort string) {
 	ks, vs := sortOf(m.Key()), sortOf(m.Elem())
 	k := tkey(m.Key()) + "!" + tkey(m.Elem())
+	heapSortOf["MD!"+k] = fmt.Sprintf("(Array Int (Array %s Bool))", ks)
+	heapSortOf["MV!"+k] = fmt.Sprintf("(Array Int (Array %s %s))", ks, vs)
 	heapKeyType["MD!"+k] = m.Key()
 	heapValType["MV!"+k] = m.Elem()
 	heapKeySort["MV!"+k] = ks
@@ -684,6 +694,12 @@ func (st *State) clone() *State {
 		n.hashEmpty = make(map[string]bool, len(st.hashEmpty))
 		for k, v := range st.hashEmpty {
 			n.hashEmpty[k] = v
+		}
+	}
+	if st.gvars != nil {
+		n.gvars = make(map[string]Val, len(st.gvars))
+		for k, v := range st.gvars {
+			n.gvars[k] = v
 		}
 	}
 	n.init = make(map[string]string, len(st.init))
